@@ -7,6 +7,7 @@ from common import R, Rvec, Cx, fl, cfl, ModelError
 from common import wiring_pre_build as pre_build  # noqa: E402,F401
 
 LEAN_MODULES = ["PyomaVerif.Props.C06", "PyomaVerif.Mutants.C06", "PyomaVerif.Props.WiringMpe", "PyomaVerif.Props.C06C13", "PyomaVerif.Props.C06Faithful", "PyomaVerif.Props.WiringStore", "PyomaVerif.Props.WiringClass", "PyomaVerif.Props.WiringCalls", "PyomaVerif.Props.C06Band", "PyomaVerif.Mutants.C06Band"]
+LEAN_MODULES = ["PyomaVerif.Props.C06", "PyomaVerif.Mutants.C06", "PyomaVerif.Props.WiringMpe", "PyomaVerif.Props.C06C13", "PyomaVerif.Props.C06Faithful", "PyomaVerif.Props.WiringStore", "PyomaVerif.Props.WiringClass", "PyomaVerif.Props.WiringCalls", "PyomaVerif.Props.C07Rect"]
 THEOREMS = [
     # call-site wiring of the class layer, regenerated from /repo on every run (translate_wiring.py)
     "PV.WiringMpe.C06_fdd_mpe_wiring",
@@ -83,6 +84,15 @@ THEOREMS = [
     "PV.Mutants.C06Band.upper_tie_fails",
     "PV.Mutants.C06Band.upper_tie_agrees_off_ties",
     "PV.Mutants.C06Band.narrow_band_empty",
+    # clause 15/19: the first stage of EFDD/FSDD on the half spectrum (nr != nc): Efdd.efddMpeR, stream fdd.EFDD_mpe[rect] of c07.py
+    "PV.C07Rect.C07_rect_svalsvec_ok",
+    "PV.C07Rect.C07_rect_svalsvec_elim",
+    "PV.C07Rect.C07_rect_square",
+    "PV.C07Rect.C07_mpe_spec_rect",
+    "PV.C07Rect.C07_one_spec_rect",
+    "PV.C07Rect.C07_rect_fsdd_raises",
+    "PV.C07Rect.C07_rect_cm_raises",
+    "PV.C07Rect.C07_rect_lt_raises",
 ]
 RULE = (
     "correspondence: fdd.FDD_mpe vs Fdd.fddMpe on random increasing grids (uniform k*df and irregular), random "
